@@ -16,11 +16,12 @@ CONSTANTS
   CProtos = {2, 3}
   SGens = {"cur", "v2strict", "v2exch"}
   Transports = {"unix", "tcp"}
-  FKinds = {"stall", "close", "halfstall", "halfclose", "late"}
+  FKinds = {"stall", "close", "halfstall", "halfclose", "late", "nobuf", "badbuf"}
   MaxStep = 5
   Strict = %(strict)s
   RefuseMemfdDowngrade = %(refuse)s
   TimeoutStopsGoroutine = %(stops)s
+  BufferFdLeaks = %(bfdleak)s
 INVARIANTS """ + INVARIANTS + """
 PROPERTY Termination
 CHECK_DEADLOCK FALSE
@@ -29,6 +30,8 @@ CHECK_DEADLOCK FALSE
 REFUSE_MEMFD_DOWNGRADE = True
 # set to True together with the repair of finding late-goroutine-after-timeout
 TIMEOUT_STOPS_GOROUTINE = True
+# set to False together with the repair of finding memfd-buffer-fd-leak-on-map-failure
+BUFFER_FD_LEAKS = False
 CFG_KEYS = ['map', 'cproto', 'sgen', 'tr', 'fside', 'fstep', 'fkind']
 TIMEOUT_MS = 1500
 LATE_TIMEOUT_MS = 300
@@ -39,6 +42,7 @@ WIRE_NAMES = {'EXCH': 'ExchangeProtoVersion', 'PATH': 'ShareMemoryByFilePath', '
 K_NOACK = 'v2-client-no-ack'
 K_DOWNGRADE = 'memfd-downgrade-sends-paths'
 K_LATE = 'late-goroutine-after-timeout'
+K_BFD = 'memfd-buffer-fd-leak-on-map-failure'
 
 
 def cfg_key(c):
@@ -87,6 +91,8 @@ def build_scenarios(terms, tier, rng):
             if not any(any(w[0] == other and w[3] == 'timeout' for w in st['wire']) for st in sts):
                 skipped['pause that nobody waits for (same as no fault)'] += 1
                 continue
+        elif c['fkind'] in ('nobuf', 'badbuf'):
+            pass          # the client does not stop; its buffer cannot be mapped
         elif c['fside'] != 'none':
             fired = any(st['res'][c['fside']] in ('stalled', 'closed') for st in sts)
             if not fired:
@@ -140,7 +146,8 @@ def classify_err(err):
         return {'err_pipe', 'err_eof'}
     if 'oobnLen:0' in e or 'EOF' in e:
         return {'err_eof'}
-    if 'mappingQueueManager failed' in e or 'mappingBufferManager failed' in e or 'no such file' in e:
+    if 'mappingQueueManager failed' in e or 'mappingBufferManager' in e or 'no such file' in e \
+            or 'mappingFreeBufferList' in e:
         return {'err_map'}
     if 'not support the protocol version' in e or 'only supports protocol version' in e or 'expect' in e or 'invalid protocol version' in e \
             or 'invalid msg type' in e:
@@ -263,12 +270,17 @@ def evaluate(ck, sc, o, sts, known, stats):
         stats['census_after_failure'] += 1
         if o['left_after_failure']:
             what = name + ': left behind after the failed handshake: ' + ', '.join(o['left_after_failure'])[:400]
-            if sc['fkind'] == 'late' and sc['fside'] != 'none' and ('C12', K_LATE) in known:
-                stats['known_' + K_LATE] += 1
-                res.append(('known', K_LATE, what))
+            slug = None
+            if sc['fkind'] == 'late' and sc['fside'] != 'none':
+                slug = K_LATE
+            elif sc['map'] == 'memfd' and sc['fkind'] == 'badbuf' and \
+                    all(l.startswith('fd:') and '_b_buffer' in l for l in o['left_after_failure']):
+                slug = K_BFD     # only the received BUFFER descriptor; anything else left is not this class
+            if slug and ('C12', slug) in known:
+                stats['known_' + slug] += 1
+                res.append(('known', slug, what))
             else:
-                res.append(('violation', what + (' [class %s, not listed in known-findings.txt]' % K_LATE
-                                                 if sc['fkind'] == 'late' and sc['fside'] != 'none' else '')))
+                res.append(('violation', what + (' [class %s, not listed in known-findings.txt]' % slug if slug else '')))
     if o['left_after_close']:
         stats['left_after_close'] += 1
     # --- conformance with the specification (structure): drift, not a verdict
@@ -304,7 +316,8 @@ def model_check(strict):
     return tlc.dump_graph('Handshake', 'mc.cfg', timeout=600, workers=4,
                           extra_files={'mc.cfg': CFG_TMPL % dict(
                               strict='TRUE' if strict else 'FALSE', refuse='TRUE' if REFUSE_MEMFD_DOWNGRADE else 'FALSE',
-                              stops='TRUE' if TIMEOUT_STOPS_GOROUTINE else 'FALSE')})
+                              stops='TRUE' if TIMEOUT_STOPS_GOROUTINE else 'FALSE',
+            bfdleak='TRUE' if BUFFER_FD_LEAKS else 'FALSE')})
 
 
 def run(prop, tier, seed, replay=None):
@@ -347,7 +360,8 @@ def run(prop, tier, seed, replay=None):
         # the same design without the exemption: TLC's counterexample is the lead the known classes come from
         sres = tlc.run('Handshake', 'mc.cfg', timeout=300, workers=2, extra_files={'mc.cfg': CFG_TMPL % dict(
             strict='TRUE', refuse='TRUE' if REFUSE_MEMFD_DOWNGRADE else 'FALSE',
-            stops='TRUE' if TIMEOUT_STOPS_GOROUTINE else 'FALSE')})
+            stops='TRUE' if TIMEOUT_STOPS_GOROUTINE else 'FALSE',
+            bfdleak='TRUE' if BUFFER_FD_LEAKS else 'FALSE')})
         if sres.violation:
             lead = sres.trace[0][1].get('cfg') if sres.trace else None
             ck.cov['strict_design_check'] = 'without the exemption TLC reports %s violated, e.g. scenario %s ' \
